@@ -158,6 +158,7 @@ def guard_facts(
     extra_kill: Optional[Callable[[Node, Fact], bool]] = None,
     cfg: Optional[CFG] = None,
     exc_gen: bool = False,
+    pure_calls: Iterable[str] = (),
 ) -> Dict[int, FrozenSet[Fact]]:
     """IN[node.id] = facts that hold on every path to the node.  Facts are
     canonical branch conditions, constant-assignment facts and the rule's own
@@ -254,7 +255,7 @@ def guard_facts(
             tg = n.ast.targets if isinstance(n.ast, ast.Assign) else [n.ast.target]
             v = n.ast.value
             if len(tg) == 1 and isinstance(tg[0], ast.Name) and isinstance(v, (ast.Compare, ast.BoolOp, ast.UnaryOp, ast.Call, ast.Attribute)) and not isinstance(v, ast.Constant):
-                if _pure_test(v) and tg[0].id not in q.names_in(v):
+                if _pure_test(v, pure_calls) and tg[0].id not in q.names_in(v):
                     out.append(("@alias:%s=%s" % (tg[0].id, q.unparse(v)), True))
         if extra_gen is not None:
             out.extend(extra_gen(n) or ())
@@ -316,10 +317,11 @@ def guard_facts(
     return {k: (v if v is not None else frozenset()) for k, v in IN.items()}
 
 
-def _pure_test(e: ast.AST) -> bool:
+def _pure_test(e: ast.AST, pure_calls: Iterable[str] = ()) -> bool:
+    pure_calls = set(pure_calls)
     for x in ast.walk(e):
         if isinstance(x, ast.Call):
-            if isinstance(x.func, ast.Attribute) and x.func.attr in PURE_METHODS:
+            if isinstance(x.func, ast.Attribute) and (x.func.attr in PURE_METHODS or q.dotted(x.func) in pure_calls):
                 continue
             if q.dotted(x.func) in PURE_FUNCS:
                 continue
@@ -341,6 +343,27 @@ def _facts_of(e: ast.AST, pol: bool) -> List[Fact]:
             return [f for v in e.values for f in _facts_of(v, False)]
         return [canon_fact(e, pol)]
     return [canon_fact(e, pol)]
+
+
+def edge_facts(n: Node, kind: str, gf: Optional[Dict[int, FrozenSet[Fact]]] = None) -> List[Fact]:
+    """Canonical facts that hold when test node ``n`` is left along edge ``kind``.
+    When the test is a local name that :func:`guard_facts` (``gf``) still knows as an
+    alias of a pure test expression (named boolean), the facts of that expression
+    are included."""
+    if n.kind != "test" or kind not in ("true", "false"):
+        return []
+    pol = kind == "true"
+    out = list(_facts_of(n.ast, pol))
+    t, p = canon_fact(n.ast, pol)
+    if gf is not None and t.isidentifier():
+        for f in gf.get(n.id, ()):
+            if f[0].startswith("@alias:%s=" % t):
+                try:
+                    e = ast.parse(f[0].split("=", 1)[1], mode="eval").body
+                except SyntaxError:
+                    continue
+                out.extend(_facts_of(e, p))
+    return out
 
 
 def has(facts: FrozenSet[Fact], text: str, pol: bool) -> bool:
@@ -577,6 +600,21 @@ def unbound_uses(fi: FuncInfo, cfg: Optional[CFG] = None) -> List[Tuple[Node, as
 # expression expansion: local aliases and same-module helper functions
 
 
+def _literal(v: ast.AST) -> bool:
+    """constant, or tuple/list/set/frozenset literal of constants"""
+    if isinstance(v, ast.Constant):
+        return True
+    if isinstance(v, (ast.Tuple, ast.List, ast.Set)):
+        return all(_literal(x) for x in v.elts)
+    if isinstance(v, ast.Call) and q.dotted(v.func) in ("frozenset", "set", "tuple") and len(v.args) == 1 and not v.keywords:
+        return _literal(v.args[0])
+    return False
+
+
+def _lit_value(v: ast.AST) -> ast.AST:
+    return v.args[0] if isinstance(v, ast.Call) else v
+
+
 def _helper_body(fn) -> Optional[Tuple[List[ast.Assign], ast.AST]]:
     """(straight-line single-name assignments, returned expression) of a small
     pure helper; None when the function has any other statement."""
@@ -714,7 +752,21 @@ def expand_expr(repo: Repo, fi: FuncInfo, e: ast.AST, depth: int = 4, locals_too
                 r = inline(node, d)
                 return r if r is not None else node
 
+            def visit_Attribute(self, node):
+                node = self.generic_visit(node)
+                # self.CONST / cls.CONST / Class.CONST: a literal class attribute
+                if isinstance(node, ast.Attribute) and isinstance(node.ctx, ast.Load) and isinstance(node.value, ast.Name):
+                    cn = clsname if node.value.id in ("self", "cls") else (node.value.id if node.value.id in mod.classes else None)
+                    if cn and cn in mod.classes:
+                        for st_ in mod.classes[cn].body:
+                            if isinstance(st_, ast.Assign) and any(isinstance(t_, ast.Name) and t_.id == node.attr for t_ in st_.targets) and _literal(st_.value):
+                                if not any(node.attr in q.assigned_paths(x) or ("self." + node.attr) in q.assigned_paths(x) for f_ in mod.funcs.values() for x in q.walk_body(f_.node) if isinstance(x, (ast.Assign, ast.AugAssign))):
+                                    return copy.deepcopy(_lit_value(st_.value))
+                return node
+
             def visit_Name(self, node):
+                if isinstance(node.ctx, ast.Load) and node.id in mod.assigns and node.id not in q.local_names(fi.node) and node.id not in fi.params() and _literal(mod.assigns[node.id]):
+                    return copy.deepcopy(_lit_value(mod.assigns[node.id]))
                 if locals_too and isinstance(node.ctx, ast.Load) and node.id not in ("self", "cls"):
                     st = [s for s in q.stores_to(fi.node, node.id)]
                     if len(st) == 1 and isinstance(st[0], (ast.Assign, ast.AnnAssign)) and getattr(st[0], "value", None) is not None and q.assigned_paths(st[0]) == {node.id} and not q.has_suspension(st[0].value) and node.id not in fi.params():
@@ -854,3 +906,16 @@ def missing_effect(ck, rule: str, fi: FuncInfo, effects: Optional[ClassEffects],
             if any((q.dotted(a) or "").split(".")[0] == "self" for a in list(c.args) + [k.value for k in c.keywords]):
                 raise AnalysisError("%s: not found in %s itself, but it hands self to %s() (helper not followed)" % (what, fi.qualname, c.func.id))
     ck.ob(rule, fi, fi.node, False, what, construct=construct)
+
+
+def as_aug(st: ast.AST) -> ast.AST:
+    """``p = p + e`` / ``p = e + p`` / ``p = p - e`` viewed as the augmented assignment
+    ``p += e`` / ``p -= e`` (same effect for numbers); anything else is returned unchanged."""
+    if isinstance(st, ast.Assign) and len(st.targets) == 1 and isinstance(st.value, ast.BinOp) and isinstance(st.value.op, (ast.Add, ast.Sub)):
+        t = q.dotted(st.targets[0])
+        if t:
+            if q.dotted(st.value.left) == t:
+                return ast.copy_location(ast.AugAssign(target=st.targets[0], op=st.value.op, value=st.value.right), st)
+            if isinstance(st.value.op, ast.Add) and q.dotted(st.value.right) == t:
+                return ast.copy_location(ast.AugAssign(target=st.targets[0], op=st.value.op, value=st.value.left), st)
+    return st
